@@ -65,6 +65,9 @@ func postSchema(r *rand.Rand, d int) gen.M {
 		for i := 1 + r.Intn(3); i > 0; i-- {
 			props[gen.Keys[r.Intn(len(gen.Keys))]] = sub(d)
 		}
+		if p(0.2) { // a member checked by a format under "not" (a caller-supplied checker may panic there)
+			props["nf"] = gen.M{"not": gen.M{"type": "string", "format": "date"}}
+		}
 		s["properties"] = props
 		if p(0.35) {
 			s["patternProperties"] = gen.M{gen.Pats[r.Intn(3)]: sub(d)}
@@ -92,6 +95,62 @@ func postSchema(r *rand.Rand, d int) gen.M {
 	return obj(d)
 }
 
+// comboSchema: several composition keywords on ONE schema object, each with a single always-applicable alternative that
+// describes members of its own (with defaults), at the root, below a property and below array items.
+func comboSchema(r *rand.Rand) gen.M {
+	alt := func(name string) gen.M {
+		return gen.M{"properties": gen.M{name: gen.M{"type": "integer", "default": json.Number("1")}, name + "s": gen.M{"type": "string", "default": "d"}}}
+	}
+	level := func() gen.M {
+		m := gen.M{"type": "object", "properties": gen.M{"c": gen.M{"type": "string"}}}
+		switch r.Intn(4) {
+		case 0:
+			m["anyOf"], m["oneOf"] = []interface{}{alt("a")}, []interface{}{alt("b")}
+		case 1:
+			m["anyOf"], m["allOf"] = []interface{}{alt("a")}, []interface{}{alt("b"), alt("xa")}
+		case 2:
+			m["oneOf"], m["allOf"] = []interface{}{alt("a")}, []interface{}{alt("b")}
+		default:
+			m["anyOf"], m["oneOf"], m["allOf"] = []interface{}{alt("a")}, []interface{}{alt("b")}, []interface{}{alt("xa")}
+		}
+		return m
+	}
+	root := level()
+	root["properties"].(gen.M)["n"] = level()
+	root["properties"].(gen.M)["l"] = gen.M{"type": "array", "items": level()}
+	return root
+}
+
+// comboInstance: members described through each composition keyword, and undescribed ones, at every level of comboSchema
+func comboInstance(r *rand.Rand) interface{} {
+	lvl := func() map[string]interface{} {
+		m := map[string]interface{}{}
+		for _, k := range []string{"a", "b", "xa"} {
+			if r.Intn(3) > 0 {
+				m[k] = 2.0
+			}
+			if r.Intn(3) == 0 {
+				m[k+"s"] = "v"
+			}
+		}
+		if r.Intn(2) == 0 {
+			m["c"] = "s"
+		}
+		if r.Intn(2) == 0 {
+			m["undescribed"] = true
+		}
+		return m
+	}
+	root := lvl()
+	if r.Intn(4) > 0 {
+		root["n"] = lvl()
+	}
+	if r.Intn(4) > 0 {
+		root["l"] = []interface{}{lvl(), lvl()}
+	}
+	return root
+}
+
 func drivePost(args []string) error {
 	fs := flag.NewFlagSet("drive-post", flag.ExitOnError)
 	seed := fs.Int64("seed", 1, "seed")
@@ -110,6 +169,10 @@ func drivePost(args []string) error {
 	valid := 0
 	for i := 0; i < *n; i++ {
 		s := postSchema(r, 3)
+		combo := i%7 == 5
+		if combo {
+			s = comboSchema(r)
+		}
 		if i%9 == 0 { // a root array of arrays of objects
 			s = gen.M{"type": "array", "items": gen.M{"type": "array", "items": postSchema(r, 2)}}
 		}
@@ -126,8 +189,18 @@ func drivePost(args []string) error {
 		var acc *validate.Result             // batch use: results of several instances merged into one, post-processed after each merge
 		for j := 0; j < *per; j++ {
 			inst := gen.InstFor(r, s, defs, 5, 0.03)
+			if combo && i%9 != 0 {
+				inst = comboInstance(r)
+			}
 			if *what == "defaults" {
 				dropSome(r, inst)
+			}
+			if m, ok := inst.(map[string]interface{}); ok {
+				if pr, ok := s["properties"].(gen.M); ok {
+					if _, has := pr["nf"]; has {
+						m["nf"] = "zz" // a string that is not a date: valid against the "not"
+					}
+				}
 			}
 			it, _ := json.Marshal(inst)
 			sg, _ := decodeNumber(st)
@@ -150,12 +223,23 @@ func drivePost(args []string) error {
 					_ = validate.AgainstSchema(&sch0, data0, reg)
 				}
 				var res *validate.Result
-				if j == 0 || i%2 == 1 {
+				if (i+j)%5 == 3 {
+					// a validator built from the options of another one (public round trip through SchemaValidatorOptions.Options())
+					first := validate.NewSchemaValidator(&sch, nil, "", reg, validate.WithRecycleValidators(true))
+					res = validate.NewSchemaValidator(&sch, nil, "", reg, first.Options.Options()...).Validate(data)
+				} else if j == 0 || i%2 == 1 {
 					res = validate.NewSchemaValidator(&sch, nil, "", reg).Validate(data)
 				} else {
 					// which anyOf / oneOf alternative describes the data does not depend on what the validator saw before
 					if shared == nil {
-						shared = validate.NewSchemaValidator(&sch, nil, "", reg)
+						shared = validate.NewSchemaValidator(&sch, nil, "", trapReg{reg})
+						// a first use that ends with a panic of the format checker (recovered by the caller) must leave nothing behind
+						if m, ok := deepCopy(data).(map[string]interface{}); ok {
+							if _, has := m["nf"]; has {
+								m["nf"] = trapString
+								protect(func() string { shared.Validate(m); return "" })
+							}
+						}
 					}
 					res = shared.Validate(data)
 				}
